@@ -13,8 +13,10 @@ from ..tissue import PRNG
 PROP = "C07"
 RULE = ("Hypothesis draws a tissue (exact or with vertex noise up to 20% of the sample spacing, any pose) and a second "
         "labelling (injective random vertex / edge / cell ids with gaps, cyclic shift of every cell's vertex list, a "
-        "subset of cells stored in the opposite sense); forsys runs on the canonical and on the relabelled mesh and "
-        "interfaces, equations, tensions and pressures are compared per physical interface / junction / cell. All "
+        "subset of cells stored in the opposite sense; in a third of the cases outer sides are straight polylines, one "
+        "exactly horizontal and lowest/highest in its cell, the stored list starting inside it); forsys runs on the canonical and on the relabelled mesh and "
+        "interfaces, equations, tensions, pressures and pressures for prescribed tensions are compared per physical "
+        "interface / junction / cell. All "
         "2^cells orientation patterns are enumerated for small tissues. Non-trivial = at least two label dimensions "
         "changed and a flipped cell adjacent to an unflipped one; distinct = fingerprint of drawn parameters.")
 ASSUMPTIONS = [
@@ -35,6 +37,11 @@ def params(draw, tier):
     p["fit"] = draw(st.sampled_from(["dlite", "taubinSVD"]))
     p["lab2"] = draw(gen.labelling_params())
     p["lab2"]["flips"] = draw(st.sampled_from(["mixed", "mixed", "all", "none"]))
+    # outer sides drawn as straight polylines, one of them exactly horizontal and lowest in its cell, whose stored list
+    # may start inside that side (what a cropped image or a synthetic tissue with a straight margin looks like)
+    p["flat_bottom"] = draw(st.sampled_from([None, {"pick": draw(st.integers(0, 10 ** 6)),
+                                                   "start_inside": draw(st.integers(0, 4)) > 0,
+                                                   "up": draw(st.integers(0, 3)) == 0}]))
     return p
 
 
@@ -111,6 +118,27 @@ def ordered_matrix(o, cols, junctions):
     return A
 
 
+def pressures_given(o, t):
+    """Pressures per physical cell when every internal interface carries its ground-truth tension; None when the
+    pressure system is not determined (disconnected interface graph, border-only cells)."""
+    R, frame, fsys = o["R"], o["frame"], o["fsys"]
+    for be in frame.internal_big_edges:
+        rs = infer.ridge_of_path(R, be.get_vertices_ids())
+        if len(rs) != 1:
+            return None
+        be.tension = float(t.ridges[next(iter(rs))].T)
+    try:
+        call(fsys.build_pressure_matrix, when=0)
+        if not infer.interface_graph_connected(fsys.pressure_matrices[0].lhs_matrix):
+            return None
+        call(fsys.solve_pressure, when=0, method="lagrange_pressure")
+    except Exception as e:
+        if "expecting 2" in str(e):
+            return None
+        raise
+    return {R.cell_of_cid[c]: float(cell.pressure) for c, cell in frame.cells.items()}
+
+
 def compare(p, ctx, t, nint, lab1, lab2, label):
     o1 = pipeline(t, nint, lab1, p)
     o2 = pipeline(t, nint, lab2, p)
@@ -135,6 +163,17 @@ def compare(p, ctx, t, nint, lab1, lab2, label):
             if max(abs(cx - dx), abs(cy - dy)) > tol:
                 return ctx.violation("coefficient-differs", p, observed=[dx, dy], expected=[cx, cy],
                                      detail={"junction": str(j), "ridge": ri, "tol": tol}, kind=label)
+    # pressures for prescribed tensions (the same value per physical interface in both runs): independent of whether
+    # the tension optimum is unique, so it is compared for every tissue, small ones included
+    pg = [pressures_given(o, t) for o in (o1, o2)]
+    if pg[0] is not None and pg[1] is not None:
+        scale = max(max(abs(v) for v in pg[0].values()), 1e-12)
+        wc = max(pg[0], key=lambda c: abs(pg[0][c] - pg[1][c]))
+        tolg = (1e-4 if p["noise"] == 0 else 0.1) * scale + 1e-9
+        if abs(pg[0][wc] - pg[1][wc]) > tolg:
+            return ctx.violation("pressure-for-given-tensions-differs", p, observed=pg[1][wc], expected=pg[0][wc],
+                                 detail={"cell": wc, "tol": tolg}, kind=label)
+        ctx.count("pressures-for-given-tensions-compared")
     cols = sorted(c for c in o1["cols"] if not isinstance(c, tuple))
     if len(cols) != len(o1["cols"]) or len(cols) < 2 or not o1["eq"]:
         ctx.count("trivial:no system")
@@ -191,6 +230,62 @@ def compare(p, ctx, t, nint, lab1, lab2, label):
     return True
 
 
+def _simple(poly):
+    """No two non-adjacent segments of the closed polygon intersect."""
+    n = len(poly)
+
+    def orient(a, b, c):
+        return ((b - a).conjugate() * (c - a)).imag
+
+    for i in range(n):
+        a, b = poly[i], poly[(i + 1) % n]
+        for j in range(i + 2, n):
+            if i == 0 and j == n - 1:
+                continue
+            c, d = poly[j], poly[(j + 1) % n]
+            if orient(a, b, c) * orient(a, b, d) < 0 and orient(c, d, a) * orient(c, d, b) < 0:
+                return False
+    return True
+
+
+def flat_bottom(t, nint, fb):
+    """Outer sides become straight polylines (internal interfaces keep their shape: the systems are those of the
+    original tissue); the tissue is turned so that a chosen outer side is exactly horizontal and the lowest (or
+    highest) part of its cell. Returns (tissue, nint, [cell, token inside that side]) or None."""
+    from dataclasses import replace
+    import cmath
+    border = [ri for ri, r in enumerate(t.ridges) if (r.left is None) != (r.right is None)]
+    if not border:
+        return None
+    ridges = [replace(r, c=None, theta=0.0) if ri in border else r for ri, r in enumerate(t.ridges)]
+    t1 = replace(t, ridges=ridges)
+    ri = border[fb["pick"] % len(border)]
+    r = t1.ridges[ri]
+    cid = r.left if r.left is not None else r.right
+    za, zb = t1.J[r.a], t1.J[r.b]
+    t2 = t1.similarity(angle=-cmath.phase(zb - za))
+    # which side is the cell on? turn by pi if it is below the side and the side should be the lowest part
+    cyc = t2.cell_polygon(cid, lambda k: 0)
+    cen = sum(t2.J[tok[1]] for tok in cyc) / len(cyc)
+    below = cen.imag < t2.J[r.a].imag
+    if below != bool(fb["up"]):
+        t2 = t2.similarity(angle=cmath.pi)
+    J = dict(t2.J)
+    J[r.b] = complex(J[r.b].real, J[r.a].imag)        # exactly horizontal (moves one junction by rounding error)
+    t2 = replace(t2, J=J)
+    nint2 = dict(nint)
+    nint2[ri] = max(nint2[ri], 2)
+    for c in t2.cells:
+        toks = t2.cell_polygon(c, lambda k: nint2[k])
+        pts = [t2.J[tok[1]] if tok[0] == "J" else t2.points(tok[1], nint2[tok[1]])[tok[2]] for tok in toks]
+        if not _simple(pts):
+            return None
+    ys = [t2.J[tok[1]].imag for tok in cyc]
+    y0 = t2.J[r.a].imag
+    extreme = all(y >= y0 for y in ys) if not fb["up"] else all(y <= y0 for y in ys)
+    return t2, nint2, [cid, ["I", ri, nint2[ri] // 2]], extreme
+
+
 def check_pair(p, ctx):
     t0 = gen.build_base(p)
     t0 = gen.apply_sub(t0, p, connected=True, no_pinch=True)
@@ -198,6 +293,15 @@ def check_pair(p, ctx):
     t, _ = gen.apply_pose(t0, p.get("pose"), nint)
     lab1 = Labelling()
     lab2 = Labelling.from_json(p["lab2"])
+    if p.get("flat_bottom"):
+        fb = flat_bottom(t, nint, p["flat_bottom"])
+        if fb is None:
+            ctx.skip("flat-bottom variant not simple")
+            return
+        t, nint, start, extreme = fb
+        if p["flat_bottom"]["start_inside"]:
+            lab2.start_at = start
+        ctx.count("flat-outer-side" + (":extreme-of-its-cell" if extreme else ""))
     ok = compare(p, ctx, t, nint, lab1, lab2, "pair")
     if ok is not True:
         return
@@ -215,6 +319,12 @@ def check_bits(p, ctx):
     nint = gen.n_int_func(t0, p)
     t, _ = gen.apply_pose(t0, p.get("pose"), nint)
     lab2 = Labelling(seed=p["mask"], flips="bits", flip_bits=p["mask"], shifts=True, relabel_v=bool(p["mask"] % 2))
+    if p.get("flat_bottom"):
+        fb = flat_bottom(t, nint, p["flat_bottom"])
+        if fb is None:
+            ctx.skip("flat-bottom variant not simple")
+            return
+        t, nint, lab2.start_at, _ = fb
     ok = compare(p, ctx, t, nint, Labelling(), lab2, "bits")
     if ok is True:
         ctx.count("orientation-patterns")
@@ -233,7 +343,9 @@ def run_serial(ctx):
              "n_int": {"mode": "const", "k": int(rng.integers(1, 6))},
              "pose": {"rot_mode": "uniform", "angle": float(rng.uniform(0, 6.28)), "shift": [0.0, 0.0], "logscale": 0.0,
                       "reflect": False},
-             "noise": 0.0, "nseed": 0, "fit": ["dlite", "taubinSVD"][k % 2]}
+             "noise": 0.0, "nseed": 0, "fit": ["dlite", "taubinSVD"][k % 2],
+             "flat_bottom": {"pick": int(rng.integers(0, 1000)), "start_inside": True, "up": bool(k % 4 == 2)}
+             if k % 2 == 0 else None}
         try:
             t0 = gen.build_base(p)
         except gen.Degenerate:
